@@ -501,6 +501,35 @@ Fixpoint np_ok (c : content) : bool :=
   | Union _ _ _ cs | Record cs _ _ => forallb np_ok cs
   end.
 
+(* ------------------------------------------------------------------ forms of the node classes that exist
+   (the fragment on which Form -> JSON -> Form is the identity): parameters as a std::map (strictly sorted keys),
+   no NUL in keys, index widths of an existing array class, NumpyForm fields consistent with its dtype,
+   sizes that JSON readers take as int. *)
+Definition nonul (s : bytes) : bool := forallb (fun c => negb (c =? 0)) s.
+Definition meta_wf (m : fmeta) : bool :=
+  psorted (m_params m) && forallb (fun kv => nonul (fst kv)) (m_params m) &&
+  match m_key m with Some k => nonul k | None => true end.
+Definition width3 (i : iform) : bool := match i with Fi32 | Fu32 | Fi64 => true | _ => false end.
+
+Fixpoint form_wf (f : form) : bool :=
+  match f with
+  | FNumpy m inner itemsize format dt =>
+      meta_wf m && forallb is_int32 inner && negb (fdtype_eqb dt FNotPrimitive) &&
+      (itemsize =? dtype_to_itemsize dt) && bytes_eqb format (dtype_to_format dt)
+  | FEmpty m => meta_wf m
+  | FListOffset m o c => meta_wf m && width3 o && form_wf c
+  | FList m s e c => meta_wf m && width3 s && iform_eqb s e && form_wf c
+  | FRegular m c size => meta_wf m && is_int32 size && form_wf c
+  | FIndexed m i c => meta_wf m && width3 i && form_wf c
+  | FIndexedOption m i c => meta_wf m && (match i with Fi32 | Fi64 => true | _ => false end) && form_wf c
+  | FByteMasked m _ c _ | FBitMasked m _ c _ _ | FUnmasked m c => meta_wf m && form_wf c
+  | FUnion m t i cs => meta_wf m && iform_eqb t Fi8 && width3 i && forallb form_wf cs
+  | FRecord m ks cs =>
+      meta_wf m && forallb form_wf cs &&
+      match ks with Some ks => Nat.eqb (length ks) (length cs) && forallb nonul ks | None => true end
+  | FVirtual m g _ => meta_wf m && match g with Some g' => form_wf g' | None => true end
+  end.
+
 (* ------------------------------------------------------------------ Form -> JSON (tojson_part) *)
 Definition j_identities (verbose : bool) (m : fmeta) : list (bytes * json) :=
   if verbose || m_hid m then [(k_has_identities, JBool (m_hid m))] else [].
